@@ -202,13 +202,14 @@ func (q *Query) parseTokens(tokens []token) ([]token, error) {
 			q.OrderBy = found[0].str
 		case "interval":
 			tokens, found = tokensConsume(tokens[1:])
-			if len(found) > 0 {
-				i, err := strconv.Atoi(found[0].str)
-				if err != nil {
-					return tokens, errors.New(invalidQuery + err.Error())
-				}
-				q.Interval = time.Second * time.Duration(i)
+			if len(found) == 0 {
+				return tokens, errors.New(invalidQuery + unexpectedEnd)
 			}
+			i, err := strconv.Atoi(found[0].str)
+			if err != nil {
+				return tokens, errors.New(invalidQuery + err.Error())
+			}
+			q.Interval = time.Second * time.Duration(i)
 		case "limit":
 			tokens, found = tokensConsume(tokens[1:])
 			if len(found) == 0 {
